@@ -26,8 +26,10 @@ type c15mExp struct {
 	total                            int64
 }
 
-func (e *c15mExp) Temporality(InstrumentKind) metricdata.Temporality { return metricdata.CumulativeTemporality }
-func (e *c15mExp) Aggregation(k InstrumentKind) Aggregation          { return DefaultAggregationSelector(k) }
+func (e *c15mExp) Temporality(InstrumentKind) metricdata.Temporality {
+	return metricdata.CumulativeTemporality
+}
+func (e *c15mExp) Aggregation(k InstrumentKind) Aggregation { return DefaultAggregationSelector(k) }
 func (e *c15mExp) Export(_ context.Context, rm *metricdata.ResourceMetrics) error {
 	e.exports++
 	if e.shuts > 0 {
@@ -71,10 +73,10 @@ func c15mSeq(variant string, ops []string) func(x *sched.Exec) {
 		}
 		mp := NewMeterProvider(WithReader(rd))
 		oldC, _ := mp.Meter("old").Int64Counter("c")
-		var added int64      // measurements made while the provider was certainly live
-		shutOK := false      // some provider/reader Shutdown returned nil
-		shutTried := false   // some Shutdown was called
-		readerShut := false  // the reader is shut down (by any path that returned nil)
+		var added int64     // measurements made while the provider was certainly live
+		shutOK := false     // some provider/reader Shutdown returned nil
+		shutTried := false  // some Shutdown was called
+		readerShut := false // the reader is shut down (by any path that returned nil)
 		where := func(i int) string { return fmt.Sprintf("after %v", ops[:i+1]) }
 		for i, op := range ops {
 			e0 := exp.exports
@@ -111,7 +113,8 @@ func c15mSeq(variant string, ops []string) func(x *sched.Exec) {
 				}
 			case "Flush":
 				err := mp.ForceFlush(ctx)
-				if err != nil && !(shutTried && errors.Is(err, ErrReaderShutdown)) {
+				// time is abstract under the scheduler: the flush's own (virtual) timeout may fire
+				if err != nil && !(shutTried && errors.Is(err, ErrReaderShutdown)) && !errors.Is(err, context.DeadlineExceeded) {
 					x.Fail("C15|forceflush-error|metrics", "ForceFlush returned %v (%s)", err, where(i))
 				}
 			case "Shutdown", "ShutdownC", "ReaderShutdown":
